@@ -5,6 +5,7 @@ import LMV.Lemmas.Stream
 import LMV.Lemmas.JasparRT
 import LMV.Lemmas.Jaspar16RT
 import LMV.Lemmas.UniprobeRT
+import LMV.Lemmas.TransfacRT
 
 namespace LMV
 namespace C14
@@ -110,6 +111,30 @@ def demoU : List Uniprobe.Src :=
   [{ id := [0x4D, 0x31], cols := [(2, [[0x30, 0x2E, 0x32, 0x35, 0x30]]), (0, [[0x30, 0x2E, 0x37, 0x35, 0x30]])] }]
 
 example : ∀ r ∈ demoU, Uniprobe.WF dna demoConv 0 (fun _ => true) r := by decide
+
+/-- **TRANSFAC round trip.**  A record is a list of items — `AC`, `ID`, `NA`, `DE` lines in any
+    order and multiplicity (a later line overrides an earlier one, as in the parser), `XX` lines,
+    `P0` blocks with the symbols in any order / any duplicate-free subset — closed by `//`.  For
+    every scalar type and conversion of float lexemes, every list of well-formed records and every
+    chunk schedule, `Reader::new` succeeds and the reader returns exactly those records, in order
+    (accession / id / name / description as written, every value in the row of its position and
+    the column of its symbol, other columns zero, no matrix when there is no `P0` block), then the
+    end of input. -/
+theorem transfac_round_trip {α : Type} (A : Alphabet) (hA : A.LettersOK) (hB : Uniprobe.LettersNotBlank A)
+    (conv : Bytes → Option α) (zero : α) (sched : List Nat) (rs : List (List Transfac.Item))
+    (hwf : ∀ r ∈ rs, ∀ it ∈ r, Transfac.WFItem A conv it) :
+    ∃ s0, Transfac.new sched (Transfac.render A rs) = .ok s0 ∧
+      outcomes (Transfac.next A conv zero) (rs.length + 1) s0
+        = rs.map (fun r => Outcome.record (Transfac.expect A conv zero r)) ++ [Outcome.done] :=
+  Transfac.roundTrip A conv zero hA hB sched rs hwf
+
+/-- two records: one with permuted symbols (T, A) and a description, one without matrix -/
+def demoT : List (List Transfac.Item) :=
+  [[.ac [0x4D, 0x31], .xx, .de [0x61, 0x20, 0x62],
+    .matrix [2, 0] [[[0x30, 0x2E, 0x32, 0x35, 0x30], [0x30, 0x2E, 0x37, 0x35, 0x30]]], .xx],
+   [.id [0x58]]]
+
+example : ∀ r ∈ demoT, ∀ it ∈ r, Transfac.WFItem dna demoConv it := by decide
 
 end C14
 end LMV
